@@ -2,7 +2,7 @@
 # usage: verify_mutant.sh C07 a   -- confirm an agent-made mutant in its scratch worktree and store it under /verif/seeded/
 # checks: (1) patch applies, crate builds with all features, unedited test suite passes (default and feature set);
 #         (2) demo fails with the patch; (3) demo passes without it.
-ID=$1; X=$2; WT=/tmp/wt/$ID; OUT=$WT/_out; FEATS="${3:-}"
+ID=$1; X=$2; WT=/tmp/wt/$ID; OUT=$WT/_out; FEATS="${3:---features alloc,serde,zeroize,const-default}"
 cd $WT || exit 9
 git checkout -q -- src tests 2>/dev/null; rm -f tests/demo_*.rs
 res() { echo "$ID/$X: $*"; }
